@@ -21,12 +21,12 @@ func init() {
 	vk.Register(&vk.Check{
 		ID:    "C07",
 		Level: "exploration",
-		Rule: "(a) exhaustive: every causally permitted interleaving of message deliveries of a deterministic 4-round protocol (broadcast+p2p, broadcast-only, p2p-only rounds) run by the real MultiHandler, enumerated by stateless DFS with a sleep-set reduction (deliveries to different recipients commute), for n=2 over all rounds and n=3 over rounds 2-3, plus one duplicate at every later position of every n=2 interleaving; (b) sampled: real protocols under random / reverse / starve schedulers with duplication, stale replays and foreign-session injections, with party-keyed deterministic randomness: bit-identical results are required whenever a party's draw sequence equals that of the in-order run, correct and agreed results otherwise; " +
+		Rule: "(a) exhaustive: every causally permitted interleaving of message deliveries of a deterministic 4-round protocol (broadcast+p2p, broadcast-only, p2p-only rounds) run by the real MultiHandler, enumerated by stateless DFS with a sleep-set reduction (deliveries to different recipients commute), for n=2 over all rounds (complete) and n=3 over rounds 2-3 and 2-4 (budgeted per sub-tree; exhaustive_subruns_completed / _incomplete say which sub-trees were enumerated completely), plus one duplicate at every later position of every n=2 interleaving; (b) sampled: real protocols under random / reverse / starve schedulers with duplication, stale replays and foreign-session injections, with party-keyed deterministic randomness: bit-identical results are required whenever a party's draw sequence equals that of the in-order run, correct and agreed results otherwise; " +
 			"distinct non-trivial = distinct per-recipient delivery orders (exhaustive part) + distinct (protocol, scheduler, injection kinds, order hash) schedules (sampled part)",
 		MinDistinct:  100,
 		Assumptions:  []string{"sleep-set reduction assumes handlers of different parties share no state (each party owns its objects; messages are serialised)", "exhaustive: true only when every DFS sub-tree of the run completed"},
 		Cases:        c07Cases,
-		CaseTimeoutS: 2400,
+		CaseTimeoutS: 3600,
 	})
 }
 
@@ -635,10 +635,10 @@ func c07Cases(env vk.Env) []vk.Case {
 		b := b
 		cs = append(cs, vk.Case{ID: fmt.Sprintf("dfs/n2/r2-4/branch%d", b), Run: func(t *vk.T) { c07DFS(t, 2, 4, b, true, 0) }})
 	}
-	// n=3, rounds 2-3: complete in thorough, budgeted per sub-tree in quick
+	// n=3, rounds 2-3: budgeted per sub-tree (the complete space needs hours per sub-tree: measured 2026-09-26, more than 40 min each for 10 of 12)
 	for b := 0; b < 12; b++ {
 		b := b
-		budget := int64(env.Pick(1500, 0))
+		budget := int64(env.Pick(1500, 25000))
 		cs = append(cs, vk.Case{ID: fmt.Sprintf("dfs/n3/r2-3/branch%d", b), Run: func(t *vk.T) { c07DFS(t, 3, 3, b, false, budget) }})
 	}
 	// n=3 all rounds: budgeted
